@@ -95,7 +95,12 @@ def check_case(case):
   for param, tree in case['consumer_bindings']:
     lines.append(f'cons.{param} = {render(tree)}')
     bound[param] = tree
-  gin.parse_config('\n'.join(lines))
+  # the text may be parsed while some config scope is active: that scope has nothing to do with
+  # the scope a reference runs under later ("the scope active at the consuming call")
+  with gin.config_scope(case.get('parse_scope') or None):
+    gin.parse_config('\n'.join(lines))
+  if case.get('parse_scope'):
+    labels.add('parsed-inside-a-scope')
   ambient = case['ambient']
 
   def total_log():
@@ -291,5 +296,6 @@ def strategy(draw):
           max_size=5, unique_by=lambda b: (b[0], b[1]))),
       'consumer_bindings': [[p, draw(_tree(3))] for p in params],
       'ambient': draw(st.sampled_from([[], ['s'], ['x'], ['s', 't'], ['t']])),
+      'parse_scope': draw(st.sampled_from(['', '', 'setup', 's', 'x/y'])),
       'calls': calls,
   }
